@@ -211,6 +211,22 @@ Proof.
   apply slots_in_ids. exact Hi.
 Qed.
 
+(** a write commutes with taking a sub-view ... *)
+Lemma subtree_write_ids (pa : path) : forall (T : tree) ws,
+  subtree (write_ids T ws) pa = write_ids (subtree T pa) ws.
+Proof.
+  induction pa as [|b pa IH]; intros T ws; [rewrite !(subtree_nil pfx V); reflexivity|].
+  destruct T as [|i p v l r]; [reflexivity|]. cbn [write_ids subtree]. destruct b; apply IH.
+Qed.
+
+(** ... hence a view none of whose slots is written sees nothing change (frame property: what a
+    read-only or mutable view over other entries observes is unaffected) *)
+Theorem vm_tree_frame (T : tree) (m : vmut) ws :
+  (forall i, In i (vm_slots T m) -> ~ In i (map fst ws)) -> vm_tree (write_ids T ws) m = vm_tree T m.
+Proof.
+  intros H. unfold vm_tree. rewrite subtree_write_ids. apply (write_ids_foreign pfx V). exact H.
+Qed.
+
 End XA.
 
 Arguments interleave {A}.
@@ -966,6 +982,7 @@ Print Assumptions interleave_perm.
 Print Assumptions interleave_sequential.
 Print Assumptions interleave_sequential_sym.
 Print Assumptions vm_derived_slots.
+Print Assumptions vm_tree_frame.
 Print Assumptions vm_split_slots_disjoint.
 Print Assumptions vm_split_derived_disjoint.
 Print Assumptions vm_apply_comm.
